@@ -96,6 +96,9 @@ def run(chk):
         if isinstance(t, dict):
             cases.append({"text": S.render_ini(t), "what": "unchanged", "must_reject": False})
             cases.extend(S.ti_corruptions(rng, t, 6))
+    for i, c in enumerate(cases):
+        if i % 4:
+            c["reuse"] = i % 4                # the reading object has a history (docs_treeinfo.impl_load_text)
     ir = core.ImplRunner("docs_treeinfo", fn="impl_load_text", per_case_timeout=20.0)
     try:
         ires = ir.run(cases)
